@@ -24,7 +24,9 @@ EXPLANATION = (
     'table_name for models); R-C11.5 RenameAppLabel moves the models into a '
     'signature created with app_id = the new label; '
     'R-C11.6 ProjectSignature.get_app_sig resolves an app id by exact match before the legacy-label alias (shared with R-C15.5); '
-    'R-C11.7 a REFERENCES clause names the related primary key field\'s current column (shared with R-C01.10).')
+    'R-C11.7 a REFERENCES clause names the related primary key field\'s current column (shared with R-C01.10).'
+    ' '
+    "R-C11.8 positions read from PRAGMA foreign_key_list / index_list / index_info rows agree with SQLite's documented layout for the role they are used in (referenced table = 2, referenced column = 4, index name = 1, unique = 2, column name = 2).")
 NOT_DECIDED = (
     'Absence of dangling references for all signatures and sequences; '
     'foreign-key validity in the database after the generated SQL.')
@@ -407,7 +409,170 @@ def r7_fk_references_live_column(ctx):
     r10_quoted_identifiers(ctx, rule_id='R-C11.7')
 
 
+# Column layout of the SQLite PRAGMA result sets the backend reads
+# (https://www.sqlite.org/pragma.html); stable since SQLite 3.6.19 / 3.8.9.
+PRAGMA_LAYOUT = {
+    'foreign_key_list': ['id', 'seq', 'table', 'from', 'to', 'on_update',
+                         'on_delete', 'match'],
+    'index_list': ['seq', 'name', 'unique', 'origin', 'partial'],
+    'index_info': ['seqno', 'cid', 'name'],
+}
+
+
+def _pragma_of(call):
+    if not (isinstance(call, ast.Call) and call_name(call) == 'execute' and
+            call.args):
+        return None
+    for x in ast.walk(call.args[0]):
+        if isinstance(x, ast.Constant) and isinstance(x.value, str) and \
+                x.value.upper().startswith('PRAGMA '):
+            name = x.value[7:].split('(')[0].split(';')[0].split('=')[0]
+            return name.strip().lower()
+    return None
+
+
+def r8_pragma_row_layout(ctx):
+    """The SQLite backend finds out whether a column is referenced by other
+    tables (and has to rewrite their REFERENCES clauses after a rename on
+    SQLite < 3.26) from `PRAGMA foreign_key_list`, and reads index state from
+    `PRAGMA index_list` / `index_info`.  The rows are plain tuples: which
+    position is compared with / stored as what must agree with SQLite's
+    documented layout (foreign_key_list: 2 = referenced table, 3 = the
+    referencing column, 4 = the referenced column)."""
+    ctx.rule('R-C11.8')
+    p = ctx.program
+    m = p.module('db.sqlite3')
+    n_reads = 0
+    for f in m.all_funcs():
+        loops = []   # (for-node, pragma)
+        last = [None]
+
+        def scan(stmts):
+            for st in stmts:
+                if isinstance(st, ast.For):
+                    it = st.iter
+                    # the pragma executed in the iterable itself, or before
+                    pr = None
+                    for c in ast.walk(it):
+                        pr = _pragma_of(c) or pr
+                    uses_fetch = any(isinstance(c, ast.Call) and
+                                     call_name(c) in ('fetchall', 'fetchmany')
+                                     for c in ast.walk(it))
+                    if uses_fetch and (pr or last[0]) and \
+                            isinstance(st.target, ast.Name):
+                        loops.append((st, pr or last[0]))
+                    scan(st.body)
+                    scan(st.orelse)
+                    continue
+                for c in walk_no_nested(st):
+                    pr = _pragma_of(c)
+                    if pr:
+                        last[0] = pr
+                for blk in ('body', 'orelse', 'finalbody'):
+                    b = getattr(st, blk, None)
+                    if isinstance(b, list) and b and \
+                            isinstance(b[0], ast.stmt) and \
+                            not isinstance(st, ast.For):
+                        scan(b)
+                for h in getattr(st, 'handlers', []):
+                    scan(h.body)
+        scan(f.node.body)
+        params = [x for x in f.params if x != 'self']
+        for loop, pragma in loops:
+            layout = PRAGMA_LAYOUT.get(pragma)
+            if layout is None:
+                continue
+            row = loop.target.id
+            # names bound from the row: name -> column index
+            bound = {}
+            for st in ast.walk(loop):
+                if isinstance(st, ast.Assign) and len(st.targets) == 1:
+                    t, v = st.targets[0], st.value
+                    if isinstance(v, ast.Subscript) and \
+                            isinstance(v.value, ast.Name) and \
+                            v.value.id == row:
+                        sl = v.slice
+                        if isinstance(sl, ast.Constant) and \
+                                isinstance(t, ast.Name):
+                            bound[t.id] = sl.value
+                        elif isinstance(sl, ast.Slice) and \
+                                isinstance(t, (ast.Tuple, ast.List)):
+                            lo = sl.lower.value if isinstance(
+                                sl.lower, ast.Constant) else 0
+                            for k, e in enumerate(t.elts):
+                                if isinstance(e, ast.Name):
+                                    bound[e.id] = lo + k
+                    elif isinstance(v, ast.Name) and v.id == row and \
+                            isinstance(t, (ast.Tuple, ast.List)):
+                        for k, e in enumerate(t.elts):
+                            if isinstance(e, ast.Name):
+                                bound[e.id] = k
+
+            def col_index(e):
+                if isinstance(e, ast.Subscript) and \
+                        isinstance(e.value, ast.Name) and e.value.id == row \
+                        and isinstance(e.slice, ast.Constant):
+                    return e.slice.value
+                if isinstance(e, ast.Name) and e.id in bound:
+                    return bound[e.id]
+                return None
+
+            def expect(e, role, node, what):
+                nonlocal n_reads
+                i = col_index(e)
+                if i is None:
+                    return
+                n_reads += 1
+                have = layout[i] if 0 <= i < len(layout) else '?'
+                if have == role:
+                    ctx.ok(f, 'PRAGMA %s: column %d (%s) used as %s' % (
+                        pragma, i, have, what), node)
+                else:
+                    ctx.finding(f, node, '%s reads column %d of a PRAGMA %s '
+                                'row as %s, but that column is "%s" (%s is '
+                                'column %d): %s' % (
+                                    f.qualname, i, pragma, what, have, role,
+                                    layout.index(role),
+                                    'the referenced column is compared with '
+                                    'the referencing table\'s own column '
+                                    'name, so references to a renamed column '
+                                    'are never found and never rewritten'
+                                    if pragma == 'foreign_key_list' else
+                                    'the index state read from the database '
+                                    'is wrong'),
+                                key='pragma-column:%s:%s' % (pragma, role))
+            for n in ast.walk(loop):
+                if isinstance(n, ast.Compare) and len(n.ops) == 1 and \
+                        isinstance(n.ops[0], (ast.Eq, ast.NotEq)):
+                    sides = [n.left, n.comparators[0]]
+                    for a, b in (sides, sides[::-1]):
+                        if isinstance(a, ast.Name) and a.id in params and \
+                                pragma == 'foreign_key_list':
+                            if 'table' in a.id:
+                                expect(b, 'table', n, 'the referenced table '
+                                       '(compared with %s)' % a.id)
+                            elif 'col' in a.id:
+                                expect(b, 'to', n, 'the referenced column '
+                                       '(compared with %s)' % a.id)
+                if isinstance(n, ast.Dict) and pragma == 'index_list':
+                    for k, v in zip(n.keys, n.values):
+                        if const_str(k) == 'unique':
+                            for x in ast.walk(v):
+                                expect(x, 'unique', n, 'the unique flag')
+                if isinstance(n, ast.Call) and call_name(n) == 'append' and \
+                        pragma == 'index_info' and n.args and \
+                        'columns' in unparse(n.func):
+                    expect(n.args[0], 'name', n, 'the column name')
+                if isinstance(n, ast.Call) and \
+                        _pragma_of(n) == 'index_info' and \
+                        pragma == 'index_list':
+                    for x in ast.walk(n.args[0]):
+                        expect(x, 'name', n, 'the index name')
+    ctx.floor('PRAGMA row columns read by role in db.sqlite3', n_reads, 5)
+
+
 def run(ctx):
+    r8_pragma_row_layout(ctx)
     r7_fk_references_live_column(ctx)
     r6_exact_app_lookup(ctx)
     r5_applabel_target(ctx)
